@@ -346,18 +346,43 @@ func c33IDWidth(node *c33Node, nl int, pl []byte, params *serf.QueryParam, sent 
 	return 0
 }
 
+// encoded sizes (from the real encoder) used to aim at the boundaries
+func c33EventEnc(lt uint64, nl int, pl []byte) int {
+	raw, _ := serf.VerifEncodeMessage(3, &serf.VerifMsgUserEvent{LTime: serf.LamportTime(lt), Name: strings.Repeat("n", nl), Payload: pl, CC: true}, false)
+	return len(raw)
+}
+
+func c33QueryEnc(lt uint64, nodeName string, nf, rf int, to int64, nl int, pl []byte) int {
+	var filters [][]byte
+	if nf > 0 {
+		names := []string{nodeName}
+		for i := 1; i < nf; i++ {
+			names = append(names, strings.Repeat("f", i))
+		}
+		b, _ := serf.VerifEncodeFilter(0, serf.VerifFilterNode(names))
+		filters = append(filters, b)
+	}
+	m := serf.VerifMsgQuery{LTime: serf.LamportTime(lt), ID: 1 << 30, Addr: make([]byte, 16), Port: 1, SourceNode: nodeName, Filters: filters,
+		RelayFactor: uint8(rf), Timeout: time.Duration(to), Name: strings.Repeat("q", nl), Payload: pl}
+	raw, _ := serf.VerifEncodeMessage(4, &m, false)
+	return len(raw)
+}
+
+func c33RespEnc(lt uint64, nodeName string, pl []byte) int {
+	raw, _ := serf.VerifEncodeMessage(5, &serf.VerifMsgQueryResponse{LTime: serf.LamportTime(lt), ID: 1 << 30, From: nodeName, Payload: pl}, false)
+	return len(raw)
+}
+
 func c33GenCases(rng *rand.Rand, tier string) []Case {
 	var out []Case
 	n := 60
 	if tier == "thorough" {
 		n = 1500
 	}
-	// encoded user event = 1 + 1 + (3+1) + (6+1) + (5+hdr+name) + (8+hdr+payload): overhead ≈ 26..32 bytes
 	limits := []int{0, 1, 30, 64, 512, 1024, 9215, 9216}
-	pick := func(around int) int {
-		v := around - 3 + rng.Intn(7)
+	nn := func(v int) int {
 		if v < 0 {
-			v = 0
+			return 0
 		}
 		return v
 	}
@@ -366,30 +391,32 @@ func c33GenCases(rng *rand.Rand, tier string) []Case {
 		if rng.Intn(4) == 0 {
 			ue = rng.Intn(9217)
 		}
-		q := []int{0, 100, 200, 1024, 4000}[rng.Intn(5)]
-		r := []int{0, 40, 100, 1024, 4000}[rng.Intn(5)]
+		q := []int{0, 150, 200, 1024, 4000}[rng.Intn(5)]
+		r := []int{0, 60, 100, 1024, 4000}[rng.Intn(5)]
 		nameLen := []int{0, 1, 5, 31, 32, 40}[rng.Intn(6)]
+		nodeName := strings.Repeat("N", nameLen)
 		ops := []string{fmt.Sprintf("cfg %d %d %d %d", ue, q, r, nameLen), "env"}
 		nt := false
 		k := 6 + rng.Intn(8)
+		evClock, qClock := uint64(1), uint64(1) // the generator's estimate, only used for aiming
 		for j := 0; j < k; j++ {
 			switch x := rng.Intn(10); {
 			case x < 5:
-				// user event: total size around the configured limit, the hard limit, or the encoded-size boundary
-				target := ue
-				switch rng.Intn(4) {
-				case 0:
-					target = 9216
-				case 1:
-					target = ue - 26 - rng.Intn(8) // where the encoded form crosses the limit
-				}
-				total := pick(target)
-				nl := rng.Intn(total + 1)
-				if rng.Intn(3) == 0 {
-					nl = []int{0, 31, 32, 255, 256}[rng.Intn(5)]
-					if nl > total {
-						nl = total
+				nl := []int{0, 1, 3, 31, 32, 255, 256, rng.Intn(40)}[rng.Intn(8)]
+				var total int
+				switch rng.Intn(3) {
+				case 0: // comfortably inside
+					total = rng.Intn(nn(ue-60) + 1)
+				case 1: // name+payload within ±3 of the configured limit
+					total = nn(ue - 3 + rng.Intn(7))
+				default: // encoded form within ±3 of the configured limit
+					total = nn(ue - 40)
+					for c33EventEnc(evClock, min(nl, total), make([]byte, total-min(nl, total))) < ue-3+rng.Intn(7) && total < ue+8 {
+						total++
 					}
+				}
+				if nl > total {
+					nl = total
 				}
 				pl := strconv.Itoa(total - nl)
 				if total-nl == 0 && rng.Intn(2) == 0 {
@@ -398,27 +425,47 @@ func c33GenCases(rng *rand.Rand, tier string) []Case {
 				ops = append(ops, fmt.Sprintf("event %d %s %s", nl, pl, []string{"t", "f"}[rng.Intn(2)]))
 				nt = true
 			case x < 6:
-				ops = append(ops, fmt.Sprintf("witness %d", []uint64{5, 126, 127, 254, 255, 65534, 65535, 1<<32 - 2, 1<<32 - 1, 1 << 40}[rng.Intn(10)]))
-			case x < 9:
-				// query: encoded overhead ≈ 100 bytes + node name; aim the payload at the limit
-				base := 95 + nameLen
-				total := pick(q - base + rng.Intn(12))
-				nl := rng.Intn(8)
-				if total < nl {
-					nl = total
+				w := []uint64{5, 126, 127, 254, 255, 65534, 65535, 1<<32 - 2, 1<<32 - 1, 1 << 40}[rng.Intn(10)]
+				if w+1 > evClock {
+					evClock = w + 1
 				}
-				pl := strconv.Itoa(total - nl)
-				if total-nl == 0 && rng.Intn(2) == 0 {
+				ops = append(ops, fmt.Sprintf("witness %d", w))
+			case x < 8:
+				nf := rng.Intn(3)
+				rf := []int{0, 0, 1, 255}[rng.Intn(4)]
+				to := []int64{127, 128, 32767, 32768, int64(10 * time.Second), int64(time.Hour)}[rng.Intn(6)]
+				nl := rng.Intn(8)
+				base := c33QueryEnc(qClock, nodeName, nf, rf, to, nl, []byte{})
+				var plen int
+				switch rng.Intn(3) {
+				case 0:
+					plen = rng.Intn(nn(q-base-10) + 1)
+				default:
+					plen = nn(q - base - 5 + rng.Intn(11))
+				}
+				pl := strconv.Itoa(plen)
+				if plen == 0 && rng.Intn(2) == 0 {
 					pl = "n"
 				}
-				to := []int64{127, 128, 32767, 32768, int64(10 * time.Second), int64(time.Hour)}[rng.Intn(6)]
-				ops = append(ops, fmt.Sprintf("query %d %s %d %d %s %d", nl, pl, rng.Intn(3), []int{0, 0, 1, 255}[rng.Intn(4)], []string{"t", "f"}[rng.Intn(2)], to))
+				ops = append(ops, fmt.Sprintf("query %d %s %d %d %s %d", nl, pl, nf, rf, []string{"t", "f"}[rng.Intn(2)], to))
 				nt = true
 			default:
+				if q < 150 {
+					continue
+				}
 				// a small query that is surely delivered, then a response around the response limit
 				ops = append(ops, fmt.Sprintf("query 1 n 0 0 f %d", int64(time.Hour)))
-				base := 36 + nameLen
-				ops = append(ops, fmt.Sprintf("respond %d", pick(r-base+rng.Intn(8))))
+				base := c33RespEnc(qClock, nodeName, []byte{})
+				qClock++
+				plen := nn(r - base - 5 + rng.Intn(11))
+				if rng.Intn(3) == 0 {
+					plen = rng.Intn(nn(r-base-8) + 1)
+				}
+				pl := strconv.Itoa(plen)
+				if plen == 0 && rng.Intn(2) == 0 {
+					pl = "n"
+				}
+				ops = append(ops, "respond "+pl)
 				if rng.Intn(2) == 0 {
 					ops = append(ops, fmt.Sprintf("respond %d", rng.Intn(20)))
 				}
@@ -429,7 +476,7 @@ func c33GenCases(rng *rand.Rand, tier string) []Case {
 	}
 	// Create's own cap on the configured limit
 	for _, ue := range []int{9215, 9216, 9217, 20000} {
-		out = append(out, Case{ID: fmt.Sprintf("create-%d", ue), Ops: []string{fmt.Sprintf("cfg %d 1024 1024 4", ue), "env", "event 3 9210 f", "event 3 9214 f", "event 1 9170 f", "event 1 9185 f"},
+		out = append(out, Case{ID: fmt.Sprintf("create-%d", ue), Ops: []string{fmt.Sprintf("cfg %d 1024 1024 4", ue), "env", "event 3 9210 f", "event 3 9214 f", "event 1 9170 f", "event 1 9185 f", "event 1 9180 t", "event 0 9182 t"},
 			Nontrivial: true, Tags: []string{"create-cap"}})
 	}
 	return out
